@@ -12,7 +12,6 @@ import (
 	"fmt"
 	"os"
 	"runtime/pprof"
-	"sort"
 	"strings"
 	"sync"
 	"time"
@@ -38,7 +37,7 @@ type result struct {
 	ops    []jOp
 	gsteps []string
 	counts []string
-	shapeTimeout, shapeGone bool
+	shapePartial bool
 	sig    string
 }
 
@@ -86,6 +85,7 @@ func runHistory(n int, maxOps int, next func(w *world, i int) *jOp) (res result)
 	w := newWorld(n)
 	res.n = n
 	var sig []string
+	delFailed := map[int]bool{}
 	for i := 0; i < maxOps; i++ {
 		o := next(w, i)
 		if o == nil {
@@ -102,14 +102,16 @@ func runHistory(n int, maxOps int, next func(w *world, i int) *jOp) (res result)
 		sig = append(sig, o.Op+":"+o.Ret)
 		// ---- branch bookkeeping and finding shapes
 		res.counts = append(res.counts, classify(o, es, before, after)...)
-		for _, e := range es {
-			if e.Kind == "delete" && !e.Flag {
-				res.shapeGone = true
-			}
-		}
-		if o.Op == "recon" && o.Ret == "RFailed" {
+		// the known finding's exact shape: a command is given up although one of its candidates was deleted,
+		// and a Delete call of that command had failed on all its attempts (in this pass or an earlier one)
+		if o.Op == "recon" {
 			for _, c := range before.Cmds {
 				if contains(c.Cands, o.Node) {
+					for _, f := range o.FDel {
+						if f.Kind == "fail" && f.N >= 4 && contains(c.Cands, f.Key) {
+							delFailed[c.ID] = true
+						}
+					}
 					deleted := false
 					for _, d := range c.Deleted {
 						deleted = deleted || d
@@ -117,8 +119,8 @@ func runHistory(n int, maxOps int, next func(w *world, i int) *jOp) (res result)
 					for _, e := range es {
 						deleted = deleted || e.Kind == "delete"
 					}
-					if deleted && before.Now-c.Created > 600000 {
-						res.shapeTimeout = true
+					if o.Ret == "RFailed" && deleted && delFailed[c.ID] {
+						res.shapePartial = true
 					}
 				}
 			}
@@ -198,10 +200,12 @@ func classify(o *jOp, es []effect, before, after snapshot) []string {
 			switch o.Ret {
 			case "RFailed":
 				switch {
+				case !timed && anyTrue(cmd.Deleted):
+					b += ":replacement-vanished-after-partial-delete"
 				case !timed:
 					b += ":replacement-vanished"
-				case deletes > 0:
-					b += ":timeout-after-delete"
+				case deletes > 0 || anyTrue(cmd.Deleted):
+					b += ":timeout-after-partial-delete"
 				default:
 					b += ":timeout"
 				}
@@ -213,6 +217,9 @@ func classify(o *jOp, es []effect, before, after snapshot) []string {
 				}
 			case "RSucceeded":
 				b += fmt.Sprintf(":repl=%d", len(cmd.Latched))
+				if timed {
+					b += ":after-timeout"
+				}
 			}
 			if before.Now-cmd.Created == 600000 {
 				out = append(out, "recon:at-timeout-boundary")
@@ -283,13 +290,9 @@ func emit(c *kit.Ctx, kind string, r result) {
 		c.Count(k)
 	}
 	var shapes []string
-	if r.shapeTimeout {
-		shapes = append(shapes, "timeout-after-delete")
+	if r.shapePartial {
+		shapes = append(shapes, "partial-delete-then-failure")
 	}
-	if r.shapeGone {
-		shapes = append(shapes, "latched-replacement-gone")
-	}
-	sort.Strings(shapes)
 	add := func(mode, key string) {
 		c.AddCase(fmt.Sprintf("Case %s %s %s", mode, gnat(r.n), steps), jCase{Kind: kind, Mode: mode, N: r.n, Ops: r.ops, KfKey: key, Shapes: strings.Join(shapes, "+")}, r.sig)
 	}
@@ -297,16 +300,11 @@ func emit(c *kit.Ctx, kind string, r result) {
 		add("MAll", "")
 		return
 	}
-	// A history that exhibits a known finding is split: every other obligation is checked without a
-	// key; the finding's own oracle is checked in a case of its own that carries the key.
+	// A history that exhibits the known finding is split: every other obligation is checked without a
+	// key; the finding's own clause is checked in a case of its own that carries the key.
 	c.Count("shape:" + strings.Join(shapes, "+"))
 	add("MCore", "")
-	if r.shapeTimeout {
-		add("MTimeout", "timeout-after-delete")
-	}
-	if r.shapeGone {
-		add("MGone", "latched-replacement-gone")
-	}
+	add("MPartial", "partial-delete-then-failure")
 }
 
 func main() {
@@ -361,4 +359,13 @@ func parallelism() int {
 		return 1
 	}
 	return 24
+}
+
+func anyTrue(bs []bool) bool {
+	for _, b := range bs {
+		if b {
+			return true
+		}
+	}
+	return false
 }
